@@ -45,7 +45,7 @@ CHECKS = {
             "DESIGN.md 3 C12"),
     "C11": ("exploration",
             "runtime monitoring: inner observer vp_out logs one record per run (exactly-once) and emits prepared stdout/stderr/status; outer observer records the resulting word; shell snapshots before/after; step-budget hook for termination",
-            "Random words with 1..3 substitutions in 5 contexts, 10 inner-command kinds (incl. a substitution of the other spelling inside, and quoted arguments containing ) ( \\ and quotes) and 18 output classes (one of 90 KB, more than a pipe buffer; 6% of the inner commands also write 100 KB to stderr) are executed and compared with prefix+output-minus-trailing-newlines+suffix; stderr pass-through, exactly-once, the inner command's own argv and shell state are checked on every run.",
+            "Random words with 1..3 substitutions in 5 contexts, 10 inner-command kinds (incl. a substitution of the other spelling inside, and quoted arguments containing ) ( \\ and quotes) (also run by a function, or piped into a builtin) and 18 output classes (one of 90 KB, more than a pipe buffer; 6% of the inner commands also write 100 KB to stderr) are executed and compared with prefix+output-minus-trailing-newlines+suffix; stderr pass-through, exactly-once, the inner command's own argv and shell state are checked on every run.",
             "unquoted results compared modulo blank/newline runs",
             "DESIGN.md 3 C11"),
     "C13": ("exploration",
@@ -90,7 +90,7 @@ CHECKS = {
             "DESIGN.md 3 C16"),
     "C06": ("exploration",
             "runtime monitoring of the real job-table code under an injected scheduler: child status changes come from a virtual kernel through the cfg-guarded waitpid hook; depth-first enumeration of scheduler choices (exhaustive within a bound, budgeted beyond, random walks deeper) with an online reference model after every poll / foreground-wait return",
-            "Every schedule within (3 events, 2 jobs, 2 processes, 2 launches) [thorough: 4 events] is executed against the real Shell/jobc/signals code; larger bounds are explored depth-first under a budget and by random walks to depth 60; evidence reports states, executions, completed schedules.",
+            "Every schedule within (3 events, 2 jobs, 2 processes, 2 launches) [thorough: 4 events] is executed against the real Shell/jobc/signals code; larger bounds are explored depth-first under a budget and by random walks to depth 60; all three phases run twice, polling (default) and with the asynchronous SIGCHLD handler as a scheduler choice of its own; evidence reports states, executions, completed schedules.",
             "fidelity of the virtual kernel (one pending stop/continue per process, continue overwrites unreported stop) is argued, not proved; fg/bg emulated without tcsetpgrp",
             "DESIGN.md 3 C06"),
     "C07": ("exploration",
@@ -105,7 +105,7 @@ CHECKS = {
             "DESIGN.md 3 C05"),
     "C20": ("exploration",
             "runtime monitoring: live pty sessions typing a prefix + TAB + Enter in generated directories with an observer recording the argv finally received; in-process companion (hook exports) emulating the editor's splice for every short name in three quoting contexts and checking candidate sets",
-            "Every name of length<=2 (thorough 3) over a 30-symbol special alphabet x {unquoted, open double quote, open single quote} x {file, directory} goes through word-start + complete_path + splice + list splitting + planning in-process; 520 (5200) generated directory populations are exercised through a real pty: entries in the current directory, inside a specially named sub-directory, and directories after `cd` next to a file sharing the prefix.",
+            "Every name of length<=2 (thorough 3) over a 30-symbol special alphabet x {unquoted, open double quote, open single quote} x {file, directory} goes through word-start + complete_path + splice + list splitting + planning in-process; 880 (5200) generated directory populations are exercised through a real pty: entries in the current directory, inside a specially named sub-directory, and directories after `cd` next to a file sharing the prefix.",
             "prefixes typed as cicada's tokenizer reads them back; untypable prefixes skipped and counted",
             "DESIGN.md 3 C20"),
 }
